@@ -12,10 +12,9 @@
 
   `network/ldap/utils.go: GetDomainFromDistinguishedName`: `splitDistinguishedName` appends one
   string header per comma-separated part (the parts are substrings, they share the input's bytes);
-  the loop `domain += strings.TrimPrefix(part, "DC=") + "."` builds ONE NEW STRING PER `DC=` PART,
-  each holding the whole domain so far (the three operands are concatenated in one step).
-  `dnAllocOf` adds all of them up: it is the cumulative number of bytes allocated, of which only
-  the last string is live when the function returns.
+  the loop writes label and dot of every `DC=` part into one `strings.Builder` (`dnAllocOf`).  Before the
+  repair it was `domain += strings.TrimPrefix(part, "DC=") + "."`, ONE NEW STRING PER `DC=` PART, each holding the
+  whole domain so far: `dnAllocConcat` keeps that as the model of the defect.
   Core Lean only.
 -/
 import Manticore.Model.C16
@@ -50,9 +49,15 @@ def dnConcatAlloc : List Bytes → (acc : Nat) → Nat
     if hasPrefix dcPrefix p then (acc + (p.length - 3 + 1)) + dnConcatAlloc ps (acc + (p.length - 3 + 1))
     else dnConcatAlloc ps acc
 
-/-- bytes `GetDomainFromDistinguishedName(dn)` allocates in total (cumulative, garbage included);
-    `strings.TrimSuffix` re-slices -/
+/-- bytes `GetDomainFromDistinguishedName(dn)` allocates: one string header per part and the bytes written to the
+    `strings.Builder` (label and dot per `DC=` part: exactly the untrimmed result, `accumulate`; the builder's growth
+    factor, at most 2, is not counted); `Builder.String` and `strings.TrimSuffix` re-slice -/
 def dnAllocOf (dn : Bytes) : Nat :=
+  16 * (splitDN dn).length + (accumulate (splitDN dn)).length
+
+/-- the defect repaired by the `fix:` commit of C07 (`domain += … + "."`): one new string per `DC=` part, each holding
+    the whole domain so far — cumulative, quadratic in the number of parts -/
+def dnAllocConcat (dn : Bytes) : Nat :=
   16 * (splitDN dn).length + dnConcatAlloc (splitDN dn) 0
 
 end Manticore.C16
